@@ -1005,6 +1005,17 @@ func runContractV1(s *Session) {
 	newCollateral := pick(t, types.ZeroCurrency, types.Siacoins(uint32(t.Range(1, 100))), types.NewCurrency64(uint64(t.Choose(30000))))
 	extend := uint64(t.Range(0, 300))
 	expectedNewStorage := uint64(pick(t, 0, 1<<22, 10<<22))
+	if t.Chance(1, 5) {
+		// small contracts: payouts between 2^64 and 10000 x 2^64 hastings, where
+		// the tax inversion works on both 64-bit halves
+		band := func() types.Currency { return types.NewCurrency(uint64(t.Choose(1<<30))<<20|uint64(t.Choose(1<<20)), uint64(t.Range(1, 9999))) }
+		renterPayout, renewPayout = band(), band()
+		hs.ContractPrice = types.NewCurrency64(uint64(t.Choose(30000)))
+		hostCollateral, newCollateral = types.NewCurrency64(uint64(t.Choose(30000))), types.NewCurrency64(uint64(t.Choose(30000)))
+		if t.Chance(1, 2) {
+			hs.StoragePrice, hs.Collateral = types.ZeroCurrency, types.ZeroCurrency
+		}
+	}
 	fee := drawCur(t, 1, 5)
 	s.drawPlan(false, 0)
 
